@@ -58,3 +58,11 @@ func NewContext(height int64, unixSeconds int64, chainID string) sdk.Context {
 func NewContextAt(height int64, t time.Time, chainID string) sdk.Context {
 	return NewContext(height, 0, chainID).WithBlockTime(t)
 }
+
+// RemountContext returns a context (same height/time/chain id) whose multistore has every store
+// key created so far mounted. Needed natively when keys are created after the first NewContext;
+// under the engine stores exist lazily and this is the identity.
+func RemountContext(old sdk.Context) sdk.Context {
+	n := NewContext(old.BlockHeight(), 0, old.ChainID())
+	return n.WithBlockTime(old.BlockTime())
+}
